@@ -159,8 +159,15 @@ func (r *yieldRewriter) rewriteStmts(
 	}
 
 	if isLast {
-		if children.kind == kindDelay {
-			r.generateLastNormalIfNecessary(children)
+		// notice: the last stmt may have been pushed into a new block (combined),
+		// so check `following` instead of `children`
+		if following.kind == kindDelay {
+			r.generateLastNormalIfNecessary(following)
+		}
+		// loop body ending with a switch stmt which contains yield must return as well
+		// (if stmt has done it in rewriteStmt)
+		if following.kind == kindFor && following.len() > 0 && following.lastKind() == kindSwitch {
+			r.generateLastNormalIfNecessary(following)
 		}
 	} else {
 		following = r.combineIfNecessary(following)
